@@ -47,8 +47,11 @@ _TLDS = {}
 
 def tlds():
     if not _TLDS:
+        # "a known TLD" = the library's table of TLDs as loaded (the bundled IANA list plus whatever the library adds to it when it builds the
+        # set, e.g. special-use names): the statement does not enumerate them
         import ural.tld_data as D
-        _TLDS["s"] = set(D.TLDS)
+        from ural import tld as _tld
+        _TLDS["s"] = set(D.TLDS) | set(getattr(_tld, "TLD_SET", ()))
     return _TLDS["s"]
 
 
